@@ -312,8 +312,10 @@ fn run_once<T: Sc, F: Factory<T>>(
                 };
                 let sgn = (n as i64 - (m + p) as i64).clamp(-4, 4);
                 rep.signatures = vec![format!(
-                    "{:?}|{:?}|{}|d{}|{}|ok{}|fault:{}|w{}",
+                    "{:?}|M{}P{}|{:?}|{}|d{}|{}|ok{}|fault:{}|w{}",
                     F::KIND,
+                    m,
+                    p,
                     sc.width,
                     if sc.parallel { "par" } else { "seq" },
                     sgn,
